@@ -797,9 +797,20 @@ EXTRA_NAMES = ["foo", "my_field", "sec_struct", "label_custom", "B_extra"]
 def st_optional(draw, n, for_altloc=False):
     opt = {}
     if draw(st.booleans()):
+        # third flavour: values on both sides of every integer-width boundary (the compressed
+        # BinaryCIF route picks the smallest integer type that holds the column)
+        width = draw(st.sampled_from([2**7, 2**8, 2**15, 2**16]))
+        side = draw(st.sampled_from(["top", "top", "bottom", "both"]))
+        if side == "top":  # the maximum decides the type: width-1 still fits, width does not
+            edges = [-width + 1, -1, 0, 1, width - 2, width - 1, width]
+        elif side == "bottom":
+            edges = [-width - 1, -width, -width + 1, -1, 0, 1, width - 1]
+        else:
+            edges = [-width - 1, -width, -width + 1, -1, 0, 1, width - 2, width - 1, width, width + 1]
         opt["atom_id"] = draw(st.one_of(
             st.lists(st.integers(-1000, 100000), min_size=n, max_size=n),
             st.lists(st.integers(-INT32_MAX, INT32_MAX), min_size=n, max_size=n),
+            st.lists(st.sampled_from(edges), min_size=n, max_size=n),
         ))
     if draw(st.booleans()):
         opt["charge"] = draw(st.lists(st.sampled_from([0, 0, 0, 1, -1, 2, -2, 9, -9, 5]), min_size=n, max_size=n))
